@@ -307,6 +307,27 @@ pub fn check_stdio(kind: &str, fgi: usize, bgi: usize, data: &[u8]) -> Result<()
     check_framing(stream, fgi, bgi, data, n).map_err(|(s, m)| (s.replace("c17:", &format!("c17:{kind}:")), m))
 }
 
+/// A standard stream attached to a device that accepts nothing (/dev/full): the coloured write must report the failure.
+pub fn check_stdio_full(kind: &str, fgi: usize, bgi: usize, data: &[u8]) -> Result<(), (String, String)> {
+    let Ok(full) = std::fs::OpenOptions::new().write(true).open("/dev/full") else { return Ok(()) };
+    let exe = std::env::current_exe().map_err(|e| ("c17:harness".to_string(), e.to_string()))?;
+    let mut cmd = std::process::Command::new(exe);
+    cmd.args(["c17-child", kind, &fgi.to_string(), &bgi.to_string(), &refmodel::json::hex(data)]).stdin(std::process::Stdio::null());
+    if kind.starts_with("stdout") {
+        cmd.stdout(full).stderr(std::process::Stdio::piped());
+    } else {
+        cmd.stderr(full).stdout(std::process::Stdio::piped());
+    }
+    let out = cmd.output().map_err(|e| ("c17:harness".to_string(), e.to_string()))?;
+    let report = String::from_utf8_lossy(if kind.starts_with("stdout") { &out.stderr } else { &out.stdout }).into_owned();
+    // stdout is line buffered by std: data without a newline may be accepted into the buffer and fail only at flush time,
+    // which is outside the coloured write; the unbuffered stderr has to fail in the call itself
+    if kind.starts_with("stderr") && !data.is_empty() && report.starts_with("ok") {
+        return Err((format!("c17:{kind}:error-swallowed"), format!("stderr is attached to /dev/full, yet the coloured write of {:?} reported {report:?}", show(data))));
+    }
+    Ok(())
+}
+
 /// `File` kind, a failed call followed by a good one: a coloured write on a read-only handle fails; the next write on a
 /// healthy file (same thread) must be framed on its own, with nothing left over from the failed call.
 pub fn check_file_sequence(fgi: usize, bgi: usize, data: &[u8]) -> Result<(), (String, String)> {
@@ -650,6 +671,12 @@ pub fn run(cfg: &Cfg) -> Stats {
                         let r = vcore::guarded(|| check_stdio(kind, pair.0, pair.1, data));
                         st.count("standard_stream_child_runs");
                         eval(r, &mut st, case, true, true);
+                        if pi < 2 && di < 2 {
+                            let case = Case::new("c17-stdio-full").b(data).n(pair.0 as i64).n(pair.1 as i64).n(ki as i64);
+                            let r = vcore::guarded(|| check_stdio_full(kind, pair.0, pair.1, data));
+                            st.count("standard_stream_on_dev_full_runs");
+                            eval(r, &mut st, case, true, true);
+                        }
                     }
                 }
             }
@@ -765,7 +792,10 @@ pub fn replay(case: &Case) -> Result<String, Viol> {
         }
         return Ok("frames of concurrent writers were contiguous in 5 runs".into());
     }
-    let r = if case.kind == "c17-stdio" {
+    let r = if case.kind == "c17-stdio-full" {
+        let kind = STDIO_KINDS[case.nums.get(2).copied().unwrap_or(0) as usize % 4];
+        vcore::guarded(|| check_stdio_full(kind, fgi, bgi, &data))
+    } else if case.kind == "c17-stdio" {
         let kind = STDIO_KINDS[case.nums.get(2).copied().unwrap_or(0) as usize % 4];
         vcore::guarded(|| check_stdio(kind, fgi, bgi, &data))
     } else if case.kind == "c17-nested" {
